@@ -126,10 +126,16 @@ ShapeOf(e) == [i \in 1..Len(e) |-> <<Kind(e[i]), ChanOf(e[i]), e[i][2]>>]
 -----------------------------------------------------------------------------
 (* C01  No stuck notes                                                      *)
 
-\* every key-emulating axis of the current mapping rests in its centre zone
+\* A key-emulating axis is "held" while it is deflected into a direction that has a note configured
+\* (or sits in the hysteresis gap between 49 % and 50 %).  It is at rest in its centre zone and also when it is
+\* deflected towards a side WITHOUT a configured note: that is where an unsigned trigger (0 = released,
+\* mapped onto -1..1) and a stick pushed to its unassigned side are.
+AxisAtRest(c, s, a, raw) ==
+  LET w == WorkPos(c, s, a, raw)
+  IN RInCentre(w) \/ (RLeMinusHalf(w) /\ ~AxisDef(c, s, a).bidi)
 AxesAtRest(X) ==
   \A a \in DOMAIN X.pos1 :
-     AxisIsType(X.c, X.post, a, "key") => RInCentre(WorkPos(X.c, X.post, a, X.pos1[a]))
+     AxisIsType(X.c, X.post, a, "key") => AxisAtRest(X.c, X.post, a, X.pos1[a])
 
 C01_Quiescent(X) ==
   (X.post.phase = "running" /\ X.post.held = {} /\ AxesAtRest(X)) => X.snd1 = {}
